@@ -169,3 +169,92 @@ Proof.
     + exact Hwf.
     + intros a0 Hge Hlt. unfold h' in Hlt. rewrite set_list_length in Hlt. lia.
 Qed.
+
+Lemma post_weaken : forall h ps F h' ps' F' G G',
+  post h ps F h' ps' F' -> (forall a, In a F -> In a G) -> (forall a, In a G' -> In a F') -> post h ps G h' ps' G'.
+Proof.
+  intros h ps F h' ps' F' G G' (P1 & P2 & P3 & P4 & P5 & P6 & P7) HG HG'. apply post_intro; auto.
+  intros a Ha. destruct (P5 a (HG' _ Ha)); auto.
+Qed.
+
+(* is v an array header (what updateArraySlice accepts back from the recursive call) *)
+Definition is_arr (u : hval) : Prop := match u with HArr _ _ _ _ | HNilArr => True | _ => False end.
+
+(* ---- the recursive call on the window, first component an index ----
+   The window [sub] shows the elements E (children jsW with footprints fpsW, owned by the caller); its own
+   pointer is either unknown to the allocator (then every write copies it) or known (the window starts at
+   cell 0 of an allocated array: cap = len, so only an index inside the window could be written in place —
+   that case is handled by the caller). *)
+Lemma window_idx : forall cfg i r, sound_at cfg r ->
+  forall h ps sub (E : list hval) jsW fpsW n jn,
+  alloc_wf ps -> is_arr sub ->
+  (forall h1, length h <= length h1 ->
+              (forall a0, a0 < length h -> ~ In a0 (concat fpsW) -> nth_error h1 a0 = nth_error h a0) -> elems h1 sub = E) ->
+  hlen sub = length E -> hcap sub = length E ->
+  reps3 (orep h ps) jsW E fpsW -> NoDup (concat fpsW) ->
+  orep h ps jn n [] ->
+  (h_is_empty n = false \/ sub <> HNilArr) ->
+  ((forall ps1, (forall a0, aaddr ps1 a0 -> aaddr ps a0 \/ length h <= a0) -> allocated (Some ps1) sub = false) \/
+   ((forall ps1, (forall p, In p ps -> In p ps1) -> allocated (Some ps1) sub = true) /\
+    ~ (0 <= clamp i (-1) (Z.of_nat (length E)) < Z.of_nat (length E))%Z)) ->
+  match Path.update (JArr jsW) (PI i :: r) jn with
+  | None => update cfg h (Some ps) sub (PI i :: r) n = None
+  | Some j' => exists jsW' h1 ps1 u fu,
+      j' = JArr jsW' /\ update cfg h (Some ps) sub (PI i :: r) n = Some (h1, Some ps1, u) /\
+      is_arr u /\ hlen u = length (elems h1 u) /\
+      reps3 (orep h1 ps1) jsW' (elems h1 u) fu /\ NoDup (concat fu) /\
+      post h ps (concat fpsW) h1 ps1 (concat fu)
+  end.
+Proof.
+  intros cfg i r IH h ps sub E jsW fpsW n jn Hwf Hisarr Helems Hhl Hcap Hrep NDc Hn Hnm Hcls.
+  destruct (reps3_length _ _ _ _ Hrep) as [L1 L2].
+  pose proof (orep_is_empty _ _ _ _ _ Hn) as Hemp.
+  assert (HelemsH : elems h sub = E) by (apply Helems; auto).
+  assert (Hcl : forall a0, In a0 (concat fpsW) -> In a0 (concat fpsW) /\ a0 < length h).
+  { intros a0 Hin. split; auto. eapply reps3_concat_fp; eauto. }
+  (* the unchanged outcome *)
+  assert (Hsame : h_is_empty n = true -> exists jsW' h1 ps1 u fu,
+            JArr jsW = JArr jsW' /\ Some (h, Some ps, norm_nil sub) = Some (h1, Some ps1, u) /\
+            is_arr u /\ hlen u = length (elems h1 u) /\ reps3 (orep h1 ps1) jsW' (elems h1 u) fu /\ NoDup (concat fu) /\
+            post h ps (concat fpsW) h1 ps1 (concat fu)).
+  { intros Hmark. destruct Hnm as [Hnm|Hnm]; [congruence|].
+    assert (norm_nil sub = sub) by (destruct sub; auto; congruence).
+    exists jsW, h, ps, sub, fpsW. rewrite H, HelemsH. repeat split; auto; try apply post_refl; auto. lia. }
+  (* the copy into a fresh array *)
+  assert (Hfresh : forall c k jx x h1 ps1 ju u fu,
+    orep h ps jx x (nth k fpsW []) ->
+    orep h1 ps1 ju u fu -> NoDup fu -> post h ps (nth k fpsW []) h1 ps1 fu ->
+    let l' := if Nat.leb (hlen sub) k then S k else hlen sub in
+    exists jsW' h2 ps2 w fw,
+      JArr (set_nth jsW k ju) = JArr jsW' /\
+      (let old := elems h1 sub in
+       let '(h2, A2, w) := make_array h1 (Some ps1) l' c in
+       match w with
+       | HArr b _ _ _ => Some (write_cell (write_cells h2 b 0 old) b k u, A2, w)
+       | _ => None
+       end) = Some (h2, Some ps2, w) /\
+      is_arr w /\ hlen w = length (elems h2 w) /\ reps3 (orep h2 ps2) jsW' (elems h2 w) fw /\ NoDup (concat fw) /\
+      post h ps (concat fpsW) h2 ps2 (concat fw)).
+  { intros c k jx x h1 ps1 ju u fu Hx Hu NDu Hpost l'.
+    pose proof Hpost as (P1 & P2 & P3 & P4 & P5 & P6 & P7).
+    assert (Hel1 : elems h1 sub = E).
+    { apply Helems; auto. intros a0 Ha0 Hnin. apply P2; auto. intro Hc. apply Hnin. eapply nth_in_concat; eauto. }
+    cbv zeta. unfold make_array, register. rewrite Hel1. unfold l'. rewrite Hhl.
+    rewrite fresh_write.
+    2:{ destruct (Nat.leb (length E) k) eqn:L; [apply Nat.leb_le in L|]; lia. }
+    edestruct (fresh_step h ps jsW E fpsW (concat fpsW) k h1 ps1 ju u fu c) as (R1 & R2 & R3); eauto.
+    { intros a0 Ha0. eapply (orep_fp _ _ _ _ _ Hx); eauto. }
+    apply orep_arr in R1 as (b & off & len & cap & cells & fw & Hw & Hnb & Hlb & Hcb & Hcaseb).
+    inversion Hw; subst b off len cap. clear Hw.
+    destruct Hcaseb as [(Hna & _) | (_ & _ & _ & _ & Hfpb)].
+    { exfalso. apply Hna. left. exists 0. left. auto. }
+    inversion Hfpb as [Hfw]. rewrite Hfw in *.
+    do 5 eexists. split; [reflexivity|]. split; [reflexivity|].
+    cbn [elems hlen is_arr]. rewrite (cells_of_nth _ _ _ Hnb). rewrite skipn_O in *.
+    split; auto. split. { rewrite firstn_length. simpl in Hlb. lia. }
+    split; [exact Hcb|]. split. { inversion R2; auto. }
+    eapply post_weaken; eauto. intros a0 Ha0. right. auto. }
+  rewrite update_idx_eq. rewrite Hhl.
+  assert (Hv : match sub with HNull | HNilArr | HArr _ _ _ _ => True | _ => False end) by (destruct sub; auto).
+  rewrite update_idx_arr_gen.
+Abort.
